@@ -6,6 +6,8 @@ A syntactic OVER-approximation, by a translator I wrote (trusted; see DESIGN.md 
     somewhere assigned one of those;
   * write sites: inside a function, a store through / mutating method call on / `global`
     rebinding of an expression whose root resolves to a persistent object;
+  * decorated functions: any decorator other than staticmethod / classmethod / property / functools.wraps counts as a
+    write site (the wrapper may cache);
   * clock / random sites: calls to time.*, random.*, datetime.* ;
   * call graph: function f -> every package function whose NAME is called in f
     (by bare name, by attribute, or as a class being instantiated: then its __init__ and __del__).
@@ -24,6 +26,7 @@ MUTATORS = {'append', 'extend', 'insert', 'pop', 'remove', 'clear', 'update', 's
 # calls on module-level logger objects that only emit a record do not change validation state
 LOG_EMIT = {'debug', 'info', 'warning', 'error', 'exception', 'critical', 'log'}
 CLOCK_MODULES = {'time', 'random', 'datetime'}
+PURE_DECORATORS = {'staticmethod', 'classmethod', 'property', 'setter', 'getter', 'deleter', 'wraps', 'abstractmethod'}
 ENTRY_POINTS = [('x12n_document', 'x12n_document'), ('x12context', 'X12ContextReader.__init__'),
                 ('x12context', 'X12ContextReader.iter_segments'), ('xmlx12_simple', 'convert')]
 
@@ -131,6 +134,19 @@ def analyse(f, mod_names, class_attrs, persistent_attrs):
                 return 'class object'
         return None
 
+    # decorators: the name bound is what the decorator returns; unless it is one of the stateless builtins the wrapper may
+    # keep state across calls (a cache keyed by arguments outlives the document): counted as a persistent write site
+    for d in ast.walk(node):
+        if d is not node and isinstance(d, (ast.FunctionDef, ast.AsyncFunctionDef, ast.ClassDef)) or d is node:
+            for dec in getattr(d, 'decorator_list', []):
+                dn = dec.func if isinstance(dec, ast.Call) else dec
+                name = dn.attr if isinstance(dn, ast.Attribute) else (dn.id if isinstance(dn, ast.Name) else None)
+                if name is None:
+                    raise GenError('%s.%s: unsupported decorator shape at line %d' % (f.module, f.qual, dec.lineno))
+                if name in PURE_DECORATORS:
+                    continue
+                f.writes.append((dec.lineno, 'decorated by %s: the wrapper may keep state across calls' % name))
+                f.calls.add(name)
     for x in ast.walk(node):
         if isinstance(x, (ast.Assign, ast.AugAssign, ast.AnnAssign, ast.Delete)):
             targets = x.targets if isinstance(x, (ast.Assign, ast.Delete)) else [x.target]
